@@ -29,7 +29,10 @@ RULE = ("a case = one (data type, labels, rows, namespace configuration, constru
         "matrix_offset reads, or one use history (first use of the source in {str, symbols_as_string, symbols_as_list, "
         "values, write to each format} x derivation {none, export indices/subset, concatenate, copy-construct, deepcopy, "
         "scoped copy, del cell, del slice} x sequence mutator {append, extend, __setitem__, insert, __delitem__, del slice, "
-        "set_at} x target format, judged against the same steps on fresh objects), or one taxon label in a 2-row matrix; "
+        "set_at} x target format, judged against the same steps on fresh objects), or one concatenation (concatenate / "
+        "concatenate_from_streams / _from_paths) of 2-3 sources one of which has every row-length pattern over {0,1,2,3} "
+        "for 2-3 taxa at every source position (a refusal is not a verdict; a returned matrix must hold the sources column "
+        "for column under its recorded subsets and round-trip), or one taxon label in a 2-row matrix; "
         "matrices: every symbol of the type's symbol set at 1x1, all ordered tuples at 1x2, 2x1, 2x2-diagonal and (per tier) "
         "1x3, 3x1, 1x4, cyclic fills of every r x c up to the tier bound at every alphabet offset, ragged rows (FASTA/NeXML), "
         "wrap-boundary lengths, multistate tokens, namespaces with an unsequenced member; non-trivial = "
@@ -903,6 +906,8 @@ def chunks(tier):
             out.append({"kind": "history", "dtype": dtype, "use": use, "tier": tier})
         if dtype in MULTISTATE_ROWS:
             out.append({"kind": "multistate", "dtype": dtype, "tier": tier})
+    for dtype in CR_DTYPES:
+        out.append({"kind": "concat-ragged", "dtype": dtype, "tier": tier})
     out.append({"kind": "fasta-continuous-probe", "tier": tier})
     chars = label_chars()
     for lo in range(0, len(chars), 10):
@@ -1555,6 +1560,190 @@ def gen_datasets(chunk):
 
 
 # ---------------------------------------------------------------------------
+# concatenation of ragged sources
+
+CR_DTYPES = ["dna", "standard", "continuous"]
+CR_ROUTES = ["concatenate", "concatenate_from_streams", "concatenate_from_paths"]
+
+
+def cr_patterns():
+    out = []
+    for r in (2, 3):
+        for lens in itertools.product(range(4), repeat=r):
+            if max(lens) > 0:
+                out.append(list(lens))
+    return out
+
+
+def cr_class(lens):
+    if len(set(lens)) == 1:
+        return "aligned"
+    if lens[0] == max(lens):
+        return "first-row-longest"
+    return "other-ragged"
+
+
+def cr_sources(case):
+    """[(rows per taxon)] for every source: the ragged one at case['position'], aligned ones (width 2) elsewhere."""
+    dtype, lens = case["dtype"], case["lens"]
+    a = alphabet(dtype)
+    srcs, k = [], 0
+    for i in range(case["nsources"]):
+        rows = []
+        for t in range(len(lens)):
+            n = lens[t] if i == case["position"] else 2
+            rows.append([a[(k + j) % len(a)] for j in range(n)])
+            k += max(n, 1)
+        srcs.append(rows)
+    return srcs
+
+
+def check_concat_ragged(case, ctx):
+    """The library may refuse (ValueError: not a verdict).  A matrix it does return must (1) hold, per taxon, the
+    source rows one after the other, (2) record every source as a character subset whose columns ARE that source
+    ('Component parts will be recorded as character subsets'), (3) survive every format able to hold its shape."""
+    dtype, lens, route = case["dtype"], case["lens"], case["route"]
+    labels = SIMPLE_LABELS[:len(lens)]
+    cls = _cls(dtype)
+    srcs = cr_sources(case)
+    tag = "route|%s-ragged:%s" % (route if route != "concatenate" else "concatenate", cr_class(lens))
+    tmpdir = None
+    saved = _alphabet_state()
+    try:
+        with warnings.catch_warnings():
+            warnings.simplefilter("ignore")
+            try:
+                if route == "concatenate":
+                    ns = dendropy.TaxonNamespace()
+                    for l in labels:
+                        ns.add_taxon(dendropy.Taxon(label=l))
+                    mats = []
+                    for rows in srcs:
+                        d = collections.OrderedDict((l, _value(dtype, r)) for l, r in zip(labels, rows))
+                        mats.append(cls.from_dict(d, taxon_namespace=ns, case_sensitive_taxon_labels=True))
+                    m = cls.concatenate(mats)
+                else:
+                    docs = [doc_fasta(dtype, labels, rows, 70) for rows in srcs]
+                    if route == "concatenate_from_streams":
+                        import io
+                        m = cls.concatenate_from_streams([io.StringIO(d) for d in docs], schema="fasta")
+                    else:
+                        import os
+                        import tempfile
+                        tmpdir = tempfile.mkdtemp(prefix="verif-c09-")
+                        paths = []
+                        for i, d in enumerate(docs):
+                            paths.append(os.path.join(tmpdir, "s%d.fasta" % i))
+                            with open(paths[-1], "w") as f:
+                                f.write(d)
+                        m = cls.concatenate_from_paths(paths, schema="fasta")
+            except ValueError:
+                ctx.count("concat_ragged|refused|" + cr_class(lens))
+                return "refused"
+            except Exception as e:
+                ctx.violation("%s|raises|%s" % (tag, where(e)), "%s of %r-length rows raised %r" % (route, lens, e), case)
+                return "raises"
+            ctx.count("concat_ragged|returned|" + cr_class(lens))
+            bad = 0
+            ol, orows = observe_matrix(m)
+            # (1) per taxon: the source rows one after the other
+            want = [[canonical(dtype, x) for rows in srcs for x in rows[t]] for t in range(len(lens))]
+            d = diff_rows(dtype, (labels, want), (ol, orows))
+            if d is not None:
+                ctx.violation("%s|%s" % (tag, d[0]), "%s: %s" % (route, d[1]), case)
+                return d[0]
+            # (2) every recorded part is that part
+            subsets = [[cs.label, sorted(cs.character_indices)] for cs in (m.character_subsets[k] for k in m.character_subsets)]
+            if len(subsets) != len(srcs):
+                ctx.violation("%s|locus-subsets-missing" % tag, "%d sources, subsets %r" % (len(srcs), subsets), case)
+                bad += 1
+            else:
+                for i, ((label, idx), rows) in enumerate(zip(subsets, srcs)):
+                    got = [[r[j] for j in idx if j < len(r)] for r in orows]
+                    exp = [[canonical(dtype, x) for x in r] for r in rows]
+                    if got != exp:
+                        ctx.violation("%s|locus-subset-differs-from-source" % tag,
+                                      "%s: the columns recorded as %r %r hold %s, the source was %s (matrix: %s)" % (
+                                          route, label, idx, _show(labels, got), _show(labels, exp), _show(ol, orows)), case)
+                        bad += 1
+                        break
+            # (3) round trip through every format able to hold the shape
+            rl = [len(r) for r in orows]
+            if min(rl) == 0:
+                names = ["nexml", "nexml-seqs"]
+            elif len(set(rl)) > 1:
+                names = ["fasta", "fasta-nowrap", "nexml", "nexml-seqs"]      # same rule as ragged from_dict matrices
+            else:
+                names = MAIN_VARIANTS
+            aligned = cr_class(lens) == "aligned"
+            for v in variants_for(dtype, names):
+                ctx.count("concat_ragged|round_trips")
+                found = write_read(m, dtype, (ol, orows), v)
+                if found and not aligned and not case.get("_baseline"):
+                    # what an aligned concatenation of the same type shows as well is not about raggedness
+                    base = dict(case, lens=[2] * len(lens), _baseline=True)
+                    known = set(sig for sig, _ in _cr_baseline(base, v))
+                    found = [(sig, msg) for sig, msg in found if sig not in known]
+                for sig, msg in found:
+                    # an aligned concatenation is the ordinary route: ordinary signature
+                    ctx.violation(sig if aligned else "%s|%s" % (tag, sig), "%s -> %s" % (route, msg), case)
+                    bad += 1
+            return "ok" if not bad else "differs"
+    finally:
+        _alphabet_restore(saved)
+        if tmpdir is not None:
+            import shutil
+            shutil.rmtree(tmpdir, ignore_errors=True)
+
+
+def _cr_baseline(base, variant):
+    class _Collect(object):
+        def __init__(self):
+            self.found = []
+
+        def violation(self, sig, msg, case):
+            self.found.append((sig, msg))
+
+        def count(self, *a):
+            pass
+    c = _Collect()
+    check_concat_ragged(base, c)
+    schema = VARIANTS[variant][0]
+    return [(sig, msg) for sig, msg in c.found if sig.startswith(schema + "|")]
+
+
+def write_read(m, dtype, exp, variant):
+    schema, wkw, rkw = VARIANTS[variant]
+    try:
+        text = m.as_string(schema=schema, **wkw)
+    except Exception as e:
+        return [("%s|write-raises|%s" % (schema, where(e)), "writing %s as %s raised %r" % (dtype, variant, e))]
+    try:
+        m2 = _cls(dtype).get(data=text, schema=schema, **rkw)
+    except Exception as e:
+        return [("%s|read-raises|%s" % (schema, where(e)),
+                 "reading back the %s %s text raised %r; text:\n%s" % (dtype, variant, e, text[:1500]))]
+    d = diff_rows(dtype, exp, observe_matrix(m2))
+    if d is not None:
+        return [("%s|%s" % (schema, d[0]), "%s -> %s: %s" % (dtype, variant, d[1]))]
+    return []
+
+
+def gen_concat_ragged(chunk):
+    dtype = chunk["dtype"]
+    for lens in cr_patterns():
+        for route in CR_ROUTES:
+            if route != "concatenate" and (min(lens) == 0 or "fasta" not in TYPES[dtype]["targets"]):
+                continue          # FASTA cannot hold an empty sequence / continuous values
+            shapes = [(2, 0), (2, 1)]
+            if len(lens) == 2:
+                shapes += [(3, 0), (3, 1), (3, 2)]
+            for nsources, position in shapes:
+                yield {"kind": "cr", "dtype": dtype, "lens": lens, "route": route, "nsources": nsources,
+                       "position": position}
+
+
+# ---------------------------------------------------------------------------
 
 GENERATORS = {"cells": gen_cells, "fills": gen_fills, "long": gen_long, "labelsets": gen_labelsets, "ragged": gen_ragged,
               "nsconf": gen_nsconf, "multistate": gen_multistate, "history": gen_history, "labels1": gen_labels1, "labels2": gen_labels2,
@@ -1573,6 +1762,14 @@ def run_chunk(chunk, ctx):
                 ctx.count("datasets_failed")
             if case["patterns"] == [5, 3, 4][:len(case["patterns"])] and case["nslabels"] == "same":
                 ctx.sample({"dataset": case}, 2)
+        return None
+    if kind == "concat-ragged":
+        for case in gen_concat_ragged(chunk):
+            ctx.case(("cr", case["dtype"], tuple(case["lens"]), case["route"], case["nsources"], case["position"]))
+            check_concat_ragged(case, ctx)
+            ctx.count("layer|concat-ragged")
+            if case["lens"] == [3, 1] and case["position"] == 0 and case["nsources"] == 2:
+                ctx.sample({"concat_ragged": case}, 1)
         return None
     if kind == "datasets-subsets":
         for case in gen_dsx(chunk):
@@ -1604,7 +1801,9 @@ def run_chunk(chunk, ctx):
 
 
 def replay(case, ctx):
-    if case.get("kind") in ("ds", "dsx"):
+    if case.get("kind") == "cr":
+        check_concat_ragged(case, ctx)
+    elif case.get("kind") in ("ds", "dsx"):
         check_dataset(case, ctx)
     else:
         check_rt(case, ctx)
